@@ -15,9 +15,14 @@
 (*              _children), so the registry never shrinks and the unpruned list is yielded  *)
 (*   FixRestart FALSE: register_child is skipped when _is_restart (a worker that was        *)
 (*              pruned while dead stays unregistered after restart())                       *)
+(*   PruneOutsideLock TRUE: active_children() copies the registry under the lock, evaluates *)
+(*              is_alive() on the copy WITHOUT the lock and re-takes the lock only to store *)
+(*              the pruned copy: a worker registered (constructor / restart() in another    *)
+(*              thread) inside that window is overwritten by the stale copy - alive, never  *)
+(*              yielded again, not closed by autoclose.  TLC must reject it (C19_Exact).    *)
 EXTENDS Naturals, Sequences, FiniteSets, TLC, RegistryProps
 
-CONSTANTS N, Threads, MaxSteps, FixPrune, FixRestart, Hist, Atomic, Ops
+CONSTANTS N, Threads, MaxSteps, FixPrune, FixRestart, PruneOutsideLock, Hist, Atomic, Ops
 
 VARIABLES st, pers, reg, lock, tpc, mayv, mustv, diedc, snap, calls, autos, ncreated, nsteps, h
 vars == <<st, pers, reg, lock, tpc, mayv, mustv, diedc, snap, calls, autos, ncreated, nsteps, h>>
@@ -83,10 +88,26 @@ Begin(t) == /\ ~Atomic /\ "ac" \in Ops /\ Budget /\ tpc[t] = "idle"
 Lock(t) == /\ tpc[t] = "want" /\ lock = 0
            /\ lock' = t /\ tpc' = [tpc EXCEPT ![t] = "locked"]
            /\ UNCHANGED <<st, pers, reg, mayv, mustv, diedc, snap, calls, autos, ncreated, nsteps, h>>
-PruneCopy(t) == /\ tpc[t] = "locked"
+PruneCopy(t) == /\ tpc[t] = "locked" /\ ~PruneOutsideLock
                 /\ reg' = Pruned /\ snap' = [snap EXCEPT ![t] = Pruned]
                 /\ tpc' = [tpc EXCEPT ![t] = "copied"]
                 /\ UNCHANGED <<st, pers, lock, mayv, mustv, diedc, calls, autos, ncreated, nsteps, h>>
+\* the variant with two lock sections: copy; release; filter the copy (no lock); lock again; store
+CopyOnly(t) == /\ tpc[t] = "locked" /\ PruneOutsideLock
+               /\ snap' = [snap EXCEPT ![t] = reg] /\ lock' = 0
+               /\ tpc' = [tpc EXCEPT ![t] = "filter"]
+               /\ UNCHANGED <<st, pers, reg, mayv, mustv, diedc, calls, autos, ncreated, nsteps, h>>
+Filter(t) == /\ tpc[t] = "filter"
+             /\ snap' = [snap EXCEPT ![t] = Alive(snap[t])]
+             /\ tpc' = [tpc EXCEPT ![t] = "want2"]
+             /\ UNCHANGED <<st, pers, reg, lock, mayv, mustv, diedc, calls, autos, ncreated, nsteps, h>>
+Lock2(t) == /\ tpc[t] = "want2" /\ lock = 0
+            /\ lock' = t /\ tpc' = [tpc EXCEPT ![t] = "locked2"]
+            /\ UNCHANGED <<st, pers, reg, mayv, mustv, diedc, snap, calls, autos, ncreated, nsteps, h>>
+Store(t) == /\ tpc[t] = "locked2"
+            /\ reg' = snap[t]
+            /\ tpc' = [tpc EXCEPT ![t] = "copied"]
+            /\ UNCHANGED <<st, pers, lock, mayv, mustv, diedc, snap, calls, autos, ncreated, nsteps, h>>
 Release(t) == /\ tpc[t] = "copied"
               /\ lock' = 0 /\ tpc' = [tpc EXCEPT ![t] = "yield"]
               /\ UNCHANGED <<st, pers, reg, mayv, mustv, diedc, snap, calls, autos, ncreated, nsteps, h>>
@@ -107,12 +128,13 @@ Auto == /\ "auto" \in Ops /\ Budget /\ Idle /\ lock = 0
 Next == \/ \E run \in BOOLEAN, p \in BOOLEAN : Create(run, p)
         \/ \E w \in W : Die(w) \/ Restart(w)
         \/ \E t \in Threads : AcAtomic(t) \/ Begin(t) \/ Lock(t) \/ PruneCopy(t) \/ Release(t) \/ Return(t)
+        \/ \E t \in Threads : CopyOnly(t) \/ Filter(t) \/ Lock2(t) \/ Store(t)
         \/ Auto
-Spec == Init /\ [][Next]_vars /\ WF_vars(\E t \in Threads : Lock(t) \/ PruneCopy(t) \/ Release(t) \/ Return(t))
+Spec == Init /\ [][Next]_vars /\ WF_vars(\E t \in Threads : Lock(t) \/ PruneCopy(t) \/ Release(t) \/ Return(t) \/ CopyOnly(t) \/ Filter(t) \/ Lock2(t) \/ Store(t))
 
 Rec == [scn |-> [n |-> ncreated], obs |-> [calls |-> calls, autos |-> autos]]
 TypeOK == /\ lock \in {0} \cup Threads /\ Len(reg) <= N
-          /\ \A t \in Threads : tpc[t] \in {"idle", "want", "locked", "copied", "yield"}
+          /\ \A t \in Threads : tpc[t] \in {"idle", "want", "locked", "filter", "want2", "locked2", "copied", "yield"}
 Inv_C19_Exact == C19_Exact(Rec)
 Inv_C19_Bounded == C19_Bounded(Rec)
 Inv_C19_Autoclose == C19_Autoclose(Rec)
@@ -125,6 +147,8 @@ Live_CallReturns == \A t \in Threads : [](tpc[t] # "idle" => <>(tpc[t] = "idle")
 W_NoPrune == ~(\E k \in 1..Len(calls) : Len(calls[k].y) < ncreated /\ Len(calls[k].y) > 0)
 W_NoRestartAfterPrune == ~(\E w \in W : st[w] = "live" /\ pers[w] /\ Len(calls) > 0 /\ Len(autos) > 0)
 W_NoConcurrentDeath == ~(\E k \in 1..Len(calls) : calls[k].died > 0 /\ calls[k].retained > 0)
+\* a registration can be attempted while a caller is between lock and release: in the algorithm it waits
+W_NoCreateDuringCall == ~(\E t \in Threads : tpc[t] \in {"copied", "yield"} /\ Cardinality(mayv[t]) > Cardinality(mustv[t]) /\ diedc[t] = 0)
 W_NoTwoCallers == ~(\E t1, t2 \in Threads : t1 # t2 /\ tpc[t1] = "yield" /\ tpc[t2] = "yield")
 
 Terminal == nsteps = MaxSteps /\ Idle
